@@ -1,4 +1,5 @@
 """C01 - a dependency's body runs exactly once per mage execution."""
+import json, os
 from vlib import *
 import depslib
 
@@ -7,6 +8,7 @@ def run(ctx):
     ctx.prove(["Props/%s.vo" % ctx.pid, "Run/eval_deps.vo"])
     ctx.trusted_base += depslib_trusted()
     depslib.run_engine_check(ctx, ctx.pid, 400 if ctx.quick else 6000)
+    contention(ctx)
 
 
 def depslib_trusted():
@@ -14,3 +16,22 @@ def depslib_trusted():
             "lib/depslib.py (generator, Coq term printer, oracles)",
             "sync.Mutex / sync.Once / sync.WaitGroup provide the atomicity the step rules of Model/Deps.v assume",
             "Model/DepsReplay.guess is untrusted: acceptance re-runs Model/Deps.run on the guessed schedule"]
+
+
+def contention(ctx):
+    """C01 under contention: a lost update in the registry only shows when several goroutines miss
+    the same fresh key at the same instant (oracle only; the theorem side is C01_at_most_once)."""
+    binp = os.path.join(ctx.tmp, "bin_depsrun")
+    rounds, gor = (4000, 8) if ctx.quick else (60000, 16)
+    spec = {"contend": {"rounds": rounds, "goroutines": gor}}
+    rc, out, err = sh([binp], input=json.dumps(spec).encode(), timeout=600)
+    if rc != 0:
+        ctx.violation({"kind": "harness-run-failed", "rc": rc, "stderr": err[-1500:]}, case=spec, found_input=False)
+        return
+    r = json.loads(out.strip().splitlines()[-1])
+    ctx.coverage["contention_keys"] = r["keys"]
+    ctx.coverage["contention_goroutines_per_key"] = gor
+    ctx.coverage["contention_not_once"] = len(r["not_once"])
+    if r["not_once"]:
+        ctx.violation({"kind": "oracle", "oracle": "C01", "clauses": ["under contention %d of %d fresh dependencies requested by %d goroutines at once did not run exactly once (executions per key: %s)"
+                                                                       % (len(r["not_once"]), r["keys"], gor, dict(list(r["not_once"].items())[:5]))]}, case=spec)
